@@ -523,3 +523,35 @@ def check_rewritten_table_file(ck, label, files, decode, rng, rounds):
         os.remove(shared)
     except OSError:
         pass
+
+
+# ---------------------------------------------------------------- the decoders with assertions disabled
+
+def check_optimised(ck, calls, what):
+    """calls: [(decoder, data bytes, [table file paths], output of the same call in this interpreter)].  The same calls in one `python -O`
+    interpreter (harness/optio.py) must give the same output lines: the properties hold "for any bytes", whatever the interpreter flags."""
+    import json
+    import os
+    import subprocess
+    if not calls:
+        return
+    inp = ''.join(json.dumps([dec, data.hex()] + list(paths)) + '\n' for dec, data, paths, _ in calls)
+    try:
+        p = subprocess.run([common.PY, '-O', '-W', 'ignore', '-B', os.path.join(os.path.dirname(os.path.abspath(__file__)), 'optio.py')],
+                           input=inp.encode(), stdout=subprocess.PIPE, stderr=subprocess.PIPE, env=common.child_env(), timeout=600)
+        lines = p.stdout.decode().split('\n')[:-1]
+        rc = p.returncode
+    except subprocess.TimeoutExpired:
+        lines, rc = [], -999
+    if rc != 0 or len(lines) != len(calls):
+        ck.fail('decoding the %s in one `python -O` interpreter did not finish (exit %s, %d of %d answers)' % (what, rc, len(lines), len(calls)),
+                {'op': 'optimised-batch', 'case': what, 'exit': rc}, 'opt_batch')
+        return
+    for (dec, data, paths, normal), l in zip(calls, lines):
+        got = json.loads(l)
+        ck.case(key=('-O', dec, data, tuple(paths)))
+        ck.count('%s under python -O' % dec)
+        if got != normal:
+            k = next((i for i in range(min(len(got), len(normal))) if got[i] != normal[i]), min(len(got), len(normal)))
+            ck.fail('the %s decoder gives different output when assertions are disabled (python -O)' % dec,
+                    {'op': 'optimised', 'case': dec, 'optimise': True, 'data_hex': data.hex(), 'first_difference': k, 'normal': normal[k:k + 2], 'under_O': got[k:k + 2]}, 'differs_O')
